@@ -143,6 +143,11 @@ def check(ctx):
     def orc_ws(ep, outs):
         return [] if outs and outs[0].startswith("ws ok") else ["WebSocket session failed: %s -> %s" % (ep[0], outs[0] if outs else "")]
     bad2 = d2.check(sessions, oracle=orc_ws, label="tunnel")
+    # the pool the balancer really builds from the configuration (max_idle, max_active, idle timeout as
+    # configured, documented defaults for 0): the pool theorems are about those numbers
+    from . import c18
+    wired = [c18.wireall_episode(ctx.rng) for _ in range(600 if ctx.thorough() else 120)]
+    d.check(wired, oracle=c18.wireall_oracle, label="pool-wiring")
     # the pool under real concurrency: double hand-out / leak detection (search; also run under -race by C12)
     from . import c12
     import re as _re
